@@ -71,7 +71,8 @@ def _fixed_len_name(name: str, total: int = 80) -> str:
 
 
 class World:
-    def __init__(self, backend: str, tag: str, orphan_tip: bool = False, extra_appends: int = 0):
+    def __init__(self, backend: str, tag: str, orphan_tip: bool = False, extra_appends: int = 0,
+                 leading_slash: bool = False):
         from datashard import create_table
         from datashard.data_structures import ManifestContent
 
@@ -117,6 +118,16 @@ class World:
             md["snapshot_log"] = [x for x in md["snapshot_log"] if x["snapshot_id"] == cur]
             md["last_updated_ms"] += 1
             st.write_file(f"metadata/v{ver + 1}-0badc0de.metadata.json", json.dumps(md, indent=2).encode())
+        if leading_slash:
+            # the metadata names its manifest lists with a leading slash ('/metadata/manifests/...', a spelling the
+            # library accepts everywhere and older writers produced); same files, same pointer
+            ptr = st.read_file("metadata.version-hint.text").decode().strip()
+            md = json.loads(st.read_file(f"metadata/{ptr}").decode())
+            for sn in md["snapshots"]:
+                sn["manifest_list"] = "/" + sn["manifest_list"].lstrip("/")
+            st.write_file(f"metadata/{ptr}", json.dumps(md, indent=2).encode())
+            t = __import__("datashard").load_table(self.location)
+            st = t.storage
         tx0 = t.new_transaction().begin()
         tx0.append_data([row(90)])
         some_data = [p for p in sorted(st.list_files("data"))][0]
@@ -558,13 +569,16 @@ class Runner:
 def worker(payload: Tuple[Any, ...]) -> Dict[str, Any]:
     part, tier, seed, backend = payload
     rep = Report(PROP, tier, seed, LEVEL)
-    w = World(backend, f"{part}-{os.getpid()}", orphan_tip=(part == "c"), extra_appends=(18 if part == "d" else 0))
+    w = World(backend, f"{part}-{os.getpid()}", orphan_tip=(part == "c"), extra_appends=(18 if part == "d" else 0),
+              leading_slash=(part == "e"))
     r = Runner(rep, w)
     try:
         if part == "a":
             r.part_a()
         elif part == "c":
             r.part_a(label="c")  # same fault enumeration, on a table that carries an uncommitted higher metadata version
+        elif part == "e":
+            r.part_b()  # the file-damage catalogue on a table whose metadata spells manifest lists with a leading slash
         elif part == "d":
             r.part_a(label="d")  # same fault enumeration, on a table with a long history (21 snapshots, 21 manifests)
         else:
@@ -617,7 +631,7 @@ def collapse(fails: List[Tuple[List[Any], Dict[str, Any]]], causes: List[Tuple[L
 def run(tier: str, seed: int) -> Report:
     rep = Report(PROP, tier, seed, LEVEL)
     backends = ["local"] if tier == "quick" else ["local", "s3"]
-    pls = [(part, tier, seed, b) for b in backends for part in ("a", "b", "c", "d")]
+    pls = [(part, tier, seed, b) for b in backends for part in ("a", "b", "c", "d", "e")]
     if tier == "quick":
         pls += [("a", tier, seed, "s3"), ("c", tier, seed, "s3")]  # request-level faults on the object store are cheap
     if seed:
